@@ -293,6 +293,9 @@ func ContinueReadBodyStream(req *protocol.Request, zr network.Reader, maxBodySiz
 	if err != nil {
 		if errors.Is(err, errs.ErrBodyTooLarge) {
 			req.Header.SetContentLength(contentLength)
+			// The prefetch of an oversized body takes whatever is buffered and may have consumed bytes
+			// behind the body: the connection cannot be reused after this request.
+			req.Header.SetConnectionClose(true)
 			req.ConstructBodyStream(bodyBuf, ext.AcquireBodyStream(bodyBuf, zr, req.Header.Trailer(), contentLength))
 
 			return nil
